@@ -531,7 +531,8 @@ def array_decl(draw, ctx, symbolic=None, name=None, max_rows=4, max_cols=5):
         rows[-1][-1] = F1(A.Param(draw(st.sampled_from(ctx.params))))
     ctx.used.add(name)
     ctx.arrays[name] = (vtype, r, c, sym)
-    if not sym:
+    if not sym and not any(isinstance(p, (A.Var, A.Idx)) for row in rows for e in row for p in A.walk_prims(e)):
+        # (only literal-valued arrays serve as twin sources: variables may be declared again in between)
         ctx.array_elems[name] = (vtype, [e for row in rows for e in row])
     return A.ArrayDecl(vtype, name, [str(r), str(c)] if with_shape else None, rows)
 
